@@ -28,31 +28,31 @@ Print Assumptions first_catch_is_first.
 (* (3) "... and the catch variable is that same object": when the try block ends by throwing x and
    the first accepting clause is (xv, cbody), the try statement continues as cbody started in a
    frame in which the catch variable reads x itself (same identity), then the finally part *)
-Theorem first_catch : forall cm funs n fn b cs f fr g x fr1 g1 xv cbody,
-  iexec cm funs n fn b fr (mark CTry g) = Res (IThrow x) fr1 g1 ->
+Theorem first_catch : forall cm funs clos n fn b cs f fr g x fr1 g1 xv cbody,
+  iexec cm funs clos n fn b fr (mark CTry g) = Res (IThrow x) fr1 g1 ->
   find_catch cm cs x = Some (xv, cbody) ->
   exists fr2 g2,
     (match xv with Some v => wr fn v x fr1 g1 = (fr2, g2) /\ rd fn v fr2 g2 = x | None => fr2 = fr1 /\ g2 = g1 end) /\
-    iexec cm funs (S n) fn (STry b cs f) fr g = finally_part cm funs n fn f (iexec cm funs n fn cbody fr2 g2).
+    iexec cm funs clos (S n) fn (STry b cs f) fr g = finally_part cm funs clos n fn f (iexec cm funs clos n fn cbody fr2 g2).
 Proof. exact first_catch_l. Qed.
 Print Assumptions first_catch.
 
-Theorem unmatched_throw_propagates : forall cm funs n fn b cs f fr g x fr1 g1,
-  iexec cm funs n fn b fr (mark CTry g) = Res (IThrow x) fr1 g1 ->
+Theorem unmatched_throw_propagates : forall cm funs clos n fn b cs f fr g x fr1 g1,
+  iexec cm funs clos n fn b fr (mark CTry g) = Res (IThrow x) fr1 g1 ->
   find_catch cm cs x = None ->
-  iexec cm funs (S n) fn (STry b cs f) fr g = finally_part cm funs n fn f (Res (IThrow x) fr1 g1).
+  iexec cm funs clos (S n) fn (STry b cs f) fr g = finally_part cm funs clos n fn f (Res (IThrow x) fr1 g1).
 Proof. exact no_catch_l. Qed.
 Print Assumptions unmatched_throw_propagates.
 
 (* (4) "innermost try first": a throw caught by a handler that completes, with a finally part that
    completes, ends the try statement normally — no enclosing handler sees it *)
-Theorem innermost_try_first : forall cm funs n fn b cs f fr g x fr1 g1 xv cbody fr2 g2 fr3 g3 fr4 g4,
-  iexec cm funs n fn b fr (mark CTry g) = Res (IThrow x) fr1 g1 ->
+Theorem innermost_try_first : forall cm funs clos n fn b cs f fr g x fr1 g1 xv cbody fr2 g2 fr3 g3 fr4 g4,
+  iexec cm funs clos n fn b fr (mark CTry g) = Res (IThrow x) fr1 g1 ->
   find_catch cm cs x = Some (xv, cbody) ->
   (match xv with Some v => wr fn v x fr1 g1 | None => (fr1, g1) end) = (fr2, g2) ->
-  iexec cm funs n fn cbody fr2 g2 = Res INone fr3 g3 ->
-  iexec cm funs n fn f fr3 (mark CFin g3) = Res INone fr4 g4 ->
-  iexec cm funs (S n) fn (STry b cs f) fr g = Res INone fr4 g4.
+  iexec cm funs clos n fn cbody fr2 g2 = Res INone fr3 g3 ->
+  iexec cm funs clos n fn f fr3 (mark CFin g3) = Res INone fr4 g4 ->
+  iexec cm funs clos (S n) fn (STry b cs f) fr g = Res INone fr4 g4.
 Proof. exact inner_try_absorbs_l. Qed.
 Print Assumptions innermost_try_first.
 
@@ -61,32 +61,32 @@ Print Assumptions innermost_try_first.
    statement — any block, any handlers, any ending control c — the events it adds to the log are
    CTry, a balanced segment, CFin, a balanced segment: exactly one CFin matches this CTry and it
    occurs before the statement returns ... *)
-Theorem finally_once : forall cm funs n fn b cs f fr g c fr' g',
-  iexec cm funs (S n) fn (STry b cs f) fr g = Res c fr' g' ->
+Theorem finally_once : forall cm funs clos n fn b cs f fr g c fr' g',
+  iexec cm funs clos (S n) fn (STry b cs f) fr g = Res c fr' g' ->
   exists mid fin, gout g' = (fin ++ CFin :: mid ++ CTry :: gout g)%list /\ balanced mid /\ balanced fin.
 Proof. exact try_once_l. Qed.
 Print Assumptions finally_once.
 (* ... and for every statement and every whole script: the event log grows by balanced segments
    only, i.e. at every return every entered try has had its finally part started exactly once *)
-Theorem finally_once_everywhere : forall cm funs n fn s fr g c fr' g',
-  iexec cm funs n fn s fr g = Res c fr' g' -> extends g g'.
+Theorem finally_once_everywhere : forall cm funs clos n fn s fr g c fr' g',
+  iexec cm funs clos n fn s fr g = Res c fr' g' -> extends g g'.
 Proof. exact events_balanced. Qed.
 Print Assumptions finally_once_everywhere.
-Theorem finally_once_script : forall cm funs n p c fr g,
-  iexec cm funs n "" p empty_frame empty_glob = Res c fr g -> balanced (gout g).
+Theorem finally_once_script : forall cm funs clos n p c fr g,
+  iexec cm funs clos n "" p empty_frame empty_glob = Res c fr g -> balanced (gout g).
 Proof. exact run_balanced_l. Qed.
 Print Assumptions finally_once_script.
 
 (* "a return in finally overrides" (as does any jump or throw out of the finally part); a finally
    part that completes normally leaves the pending control untouched *)
-Theorem finally_return_overrides : forall cm funs n fn f pending fr3 g3 cf fr4 g4,
-  iexec cm funs n fn f fr3 (mark CFin g3) = Res cf fr4 g4 -> cf <> INone ->
-  finally_part cm funs n fn f (Res pending fr3 g3) = Res cf fr4 g4.
+Theorem finally_return_overrides : forall cm funs clos n fn f pending fr3 g3 cf fr4 g4,
+  iexec cm funs clos n fn f fr3 (mark CFin g3) = Res cf fr4 g4 -> cf <> INone ->
+  finally_part cm funs clos n fn f (Res pending fr3 g3) = Res cf fr4 g4.
 Proof. exact finally_overrides_l. Qed.
 Print Assumptions finally_return_overrides.
-Theorem finally_keeps_pending : forall cm funs n fn f pending fr3 g3 fr4 g4,
-  iexec cm funs n fn f fr3 (mark CFin g3) = Res INone fr4 g4 ->
-  finally_part cm funs n fn f (Res pending fr3 g3) = Res pending fr4 g4.
+Theorem finally_keeps_pending : forall cm funs clos n fn f pending fr3 g3 fr4 g4,
+  iexec cm funs clos n fn f fr3 (mark CFin g3) = Res INone fr4 g4 ->
+  finally_part cm funs clos n fn f (Res pending fr3 g3) = Res pending fr4 g4.
 Proof. exact finally_keeps_l. Qed.
 Print Assumptions finally_keeps_pending.
 
@@ -99,9 +99,9 @@ Print Assumptions impl_refines_ref_exn.
 
 (* "A script that ends with an uncaught throwable, or whose source does not parse, prints a
    diagnostic and exits with a non-zero status after flushing earlier output." *)
-Theorem uncaught_is_error : forall cm funs n p x fr g,
-  iexec cm funs n "" p empty_frame empty_glob = Res (IThrow x) fr g ->
-  irun cm funs n p = (output g, EndError).
+Theorem uncaught_is_error : forall cm funs clos n p x fr g,
+  iexec cm funs clos n "" p empty_frame empty_glob = Res (IThrow x) fr g ->
+  irun cm funs clos n p = (output g, EndError).
 Proof. exact uncaught_is_error_l. Qed.
 Print Assumptions uncaught_is_error.
 Theorem exit_status : forall s,
